@@ -16,6 +16,7 @@ from __future__ import annotations
 
 import builtins
 import math
+import os
 import time
 from fractions import Fraction
 
@@ -43,6 +44,10 @@ class SolverUnknown(Inconclusive):
 
 class PathInfeasible(BaseException):
     """raised by assume() when the current path has no model left"""
+
+
+class PathEnd(BaseException):
+    """ends the current path normally (e.g. after the code under test raised and that was recorded)"""
 
 
 # --------------------------------------------------------------------------- #
@@ -200,7 +205,8 @@ class PathCtx:
         self.solver.add(cond if v else z3.Not(cond))
         return v
 
-    def concretize(self, term, lo=None, hi=None, limit=64):
+    def concretize(self, term, lo=None, hi=None, limit=None):
+        limit = limit or self.ex.concretize_limit
         """fork over the feasible integer values of `term` (bounded)"""
         term = z3.simplify(term)
         if z3.is_int_value(term):
@@ -244,6 +250,20 @@ class PathCtx:
     def reachable(self):
         return self._check() == z3.sat
 
+    def call(self, name, fn, *args, allowed=(), **kwargs):
+        """run code under test; an exception it raises is an obligation failure `<name>_no_exception`
+        (unless its type is in `allowed`, in which case it is returned)"""
+        try:
+            return fn(*args, **kwargs)
+        except allowed as e:  # noqa
+            return e
+        except Exception as e:  # noqa  (control exceptions are BaseException and pass through)
+            import traceback
+            tb = traceback.extract_tb(e.__traceback__)
+            where = [f"{os.path.basename(fr.filename)}:{fr.lineno}:{fr.name}" for fr in tb[-3:]]
+            self.oblige(name + "_no_exception", False, detail={"exception": f"{type(e).__name__}: {e}"[:300], "where": where})
+            raise PathEnd()
+
     def model(self):
         if self._check() != z3.sat:
             raise PathInfeasible()
@@ -258,9 +278,11 @@ class Explorer:
         self.solver.set("random_seed", seed & 0xFFFF)
         self.max_paths = max_paths
         self.max_depth = max_depth
+        self.concretize_limit = 64
         self.stop_on_cex = stop_on_cex
         self.stats = Stats()
         self.cexs = []
+        self.errors = []
         self.work = []
         self.outcomes = []
 
@@ -286,6 +308,15 @@ class Explorer:
                 except PathInfeasible:
                     self.stats.infeasible += 1
                     continue
+                except PathEnd:
+                    self.stats.raised += 1
+                except Inconclusive:
+                    raise
+                except Exception as e:  # noqa: unexpected exception in harness or code under test
+                    import traceback
+                    self.errors.append(f"{type(e).__name__}: {e} :: " + " <- ".join(
+                        f"{os.path.basename(fr.filename)}:{fr.lineno}" for fr in traceback.extract_tb(e.__traceback__)[-4:]))
+                    self.stats.raised += 1
                 self.stats.paths += 1
                 if len(self.stats.path_samples) < 4:
                     try:
